@@ -254,7 +254,10 @@ pub fn explore(out: &mut Out, kind: &str, channels: &[u32], max_states: usize) {
             }
             transitions += 1;
             let k = key(&out.st.tables, 0);
-            if !seen.contains_key(&k) && seen.len() < max_states {
+            if let Some(j) = seen.get(&k) {
+                // the implementation is back in a known state: the model must be in the corresponding one
+                out.req(&format!("{} same 0 {}", kind, j));
+            } else if seen.len() < max_states {
                 out.req(&format!("{} copy 0 {}", kind, next_id));
                 seen.insert(k, next_id);
                 queue.push_back(next_id);
@@ -413,4 +416,100 @@ pub fn roundtrips(out: &mut Out, kind: &str, seed: u64, count: usize) {
     out.stat("evaluations", n);
     out.stat("nontrivial", n);
     out.stat("roundtrips", n);
+}
+
+// ------------------------------------------------------------------------------------------ C15: isolation (pure scanners)
+
+pub fn isolation(out: &mut Out, kind: &str, seed: u64, histories: usize, len: usize, pair: Option<(u32, u32)>) {
+    let mut rng = Rng(seed ^ 0xC15C);
+    let mut n = 0u64;
+    let width = if kind == "cc" { 3 } else { 6 };
+    for _ in 0..histories {
+        out.req(&format!("{} new 1", kind));
+        for c in 0..16 { out.req(&format!("{} new {}", kind, 10 + c)); }
+        let mut ok = true;
+        let mut hist = String::new();
+        for _ in 0..len {
+            if rng.below(100) < 3 {
+                out.req(&format!("{} reset 1", kind));
+                for c in 0..16 { out.req(&format!("{} reset {}", kind, 10 + c)); }
+                hist.push_str("R,");
+            } else {
+                let (s0, d1, d2) = random_msg(&mut rng, kind);
+                let c = match pair { Some((a, b)) => if rng.below(2) == 0 { a } else { b }, None => rng.below(16) as u32 };
+                let s = if s0 < 0xF0 { (s0 & 0xF0) + c as u8 } else { s0 };
+                let a = out.req_ret(&format!("{} feed 1 raw {} {} {}", kind, s, d1, d2));
+                hist.push_str(&format!("{}.{}.{},", s, d1, d2));
+                if s < 0xF0 {
+                    let b = out.req_ret(&format!("{} feed {} raw {} {} {}", kind, 10 + c, s, d1, d2));
+                    ok &= a == b;
+                    if !a.starts_with('-') { ok &= a.split_whitespace().next() == Some(&c.to_string()); }
+                } else {
+                    ok &= a.split_whitespace().count() == width && a.starts_with('-');
+                }
+            }
+            n += 1;
+        }
+        out.oracle(&format!("c15-{}-channel-isolation", kind), &format!("history={}", if hist.len() > 600 { &hist[..600] } else { &hist }), ok);
+    }
+    out.stat("evaluations", n);
+    out.stat("nontrivial", n);
+}
+
+// ------------------------------------------------------------------------------------------ C16: transparency, predicates
+
+/// every explored state x non-contributing messages: nothing reported and the scanner compares equal to a copy made
+/// before (the real PartialEq); returns nothing, emits request lines (`same` has the expected answer 1)
+pub fn transparent(out: &mut Out, kind: &str, channels: &[u32]) {
+    // re-explore (cheaply) to obtain the reachable states, then probe each of them
+    let alpha = alphabet(kind, channels);
+    let mut seen: HashMap<String, usize> = HashMap::new();
+    let mut queue: VecDeque<usize> = VecDeque::new();
+    let key = |t: &Tables, id: usize| -> String { if kind == "cc" { format!("{:?}", t.cc[id].unwrap()) } else { format!("{:?}", t.pn[id].unwrap()) } };
+    out.req(&format!("{} new 2", kind));
+    seen.insert(key(&out.st.tables, 2), 2);
+    queue.push_back(2);
+    let mut next_id = 3usize;
+    let mut n = 0u64;
+    let contributing = |cnn: u8| -> bool { if kind == "cc" { cnn < 64 } else { matches!(cnn, 6 | 38 | 96..=101) } };
+    while let Some(id) = queue.pop_front() {
+        // probes on this state
+        let mut probe = |out: &mut Out, s: u8, d1: u8, d2: u8| {
+            out.req(&format!("{} copy {} 0", kind, id));
+            let l = out.req_ret(&format!("{} feed 0 raw {} {} {}", kind, s, d1, d2));
+            let ok_none = l.starts_with('-');
+            out.req(&format!("{} same 0 {}", kind, id));
+            if !ok_none { out.oracle(&format!("c16-{}-non-contributing-reports-nothing", kind), &format!("state={} msg={}.{}.{}", id, s, d1, d2), false); }
+        };
+        let c = channels[0] as u8;
+        for cnn in 0..128u8 { if !contributing(cnn) { for v in [0u8, 5, 127] { probe(out, 0xB0 + c, cnn, v); n += 1; } } }
+        for st in (0x80u8..=0xFF).filter(|s| (s & 0xF0) != 0xB0) { for (d1, d2) in [(0u8, 0u8), (6, 38), (98, 127), (33, 1)] { probe(out, st, d1, d2); n += 1; } }
+        for inp in &alpha {
+            out.req(&format!("{} copy {} 0", kind, id));
+            match inp {
+                Some((s, d1, d2)) => { out.req(&format!("{} feed 0 raw {} {} {}", kind, s, d1, d2)); }
+                None => { out.req(&format!("{} reset 0", kind)); }
+            }
+            let k = key(&out.st.tables, 0);
+            if !seen.contains_key(&k) {
+                out.req(&format!("{} copy 0 {}", kind, next_id));
+                seen.insert(k, next_id);
+                queue.push_back(next_id);
+                next_id += 1;
+            }
+        }
+    }
+    out.stat("states", seen.len() as u64);
+    out.stat("evaluations", n);
+    out.stat("nontrivial", n);
+}
+
+pub fn cnpred_obs(n: u32) -> Option<Obs> {
+    let c = ControllerNumber::try_from(n).ok()?;
+    Some(guarded(|o| {
+        o.b(c.can_be_part_of_14_bit_control_change_message());
+        o.opt(c.corresponding_14_bit_lsb_controller_number().map(|x| x.get()));
+        o.b(c.is_parameter_number_message_controller_number());
+        o.b(c.is_channel_mode_message_controller_number());
+    }))
 }
